@@ -211,7 +211,7 @@ check_c18(ZCase &c, Verdict &v)
         v.fail("ZIPF-CDF-VALUE", b);
         break;
       }
-      if (got < prev && !(k == n - 1 && prev - got <= tol)) {
+      if (got < prev) {  // strictly as stated: non-decreasing in k, including the step to the pinned last bin
         snprintf(b, sizeof b, "exact n=%" PRIu64 " alpha=%.17g: GetCDF decreases at bin %" PRIu64 " (%.17g -> %.17g)", n, c.alpha, k, prev, got);
         v.fail("ZIPF-CDF-MONOTONE", b);
         break;
@@ -332,16 +332,37 @@ check_c19(ZCase &c, Verdict &v)
     distinct = std::unique(s.begin(), s.end()) - s.begin();
   }
   v.nontrivial = c.seqlen >= 16 && distinct >= 2;
-  // max < min must be rejected by an exception (both classes, this type)
-  if (c.n >= 2) {
-    bool thrown = false;
-    try {
-      const Z<T> bad{mx, mn, c.alpha};
-      (void)bad;
-    } catch (const std::exception &) {
-      thrown = true;
+  // max < min must be rejected by an exception (both classes, this type): the generated range swapped, and
+  // inverted pairs around the limits and around the sign boundary of the same-width signed type
+  {
+    const T tmax = std::numeric_limits<T>::max(), tmin = std::numeric_limits<T>::min();
+    const T half = static_cast<T>(std::is_signed_v<T> ? 0 : (tmax / 2) + 1);
+    const T a = static_cast<T>(c.engseed % 7), b = static_cast<T>((c.engseed >> 8) % 5);
+    std::vector<std::pair<T, T>> inv;  // (min, max) with max < min
+    if (c.n >= 2) inv.emplace_back(mx, mn);
+    inv.emplace_back(static_cast<T>(half + a), static_cast<T>(half - 1 - b));
+    inv.emplace_back(static_cast<T>(mn + 1), mn);
+    if constexpr (!std::is_signed_v<T>) {
+      // (for signed types `max - min + 1` of such far-apart bounds overflows before the constructor validates:
+      // the property asks for rejection, not for UB-freedom of that expression, so they are not generated)
+      inv.emplace_back(static_cast<T>(tmax - a), static_cast<T>(tmin + b));
+      inv.emplace_back(static_cast<T>(tmax - a), static_cast<T>(half - 1 - b));
+      inv.emplace_back(static_cast<T>(half + a + 1), static_cast<T>(tmin + b));
     }
-    if (!thrown) v.fail("ZIPF-REJECT", "construction with max < min did not throw");
+    for (auto &[lo, hi] : inv) {
+      if (!(hi < lo)) continue;
+      bool thrown = false;
+      try {
+        const Z<T> bad{lo, hi, c.alpha};
+        (void)bad;
+      } catch (const std::exception &) {
+        thrown = true;
+      }
+      if (!thrown) {
+        v.fail("ZIPF-REJECT", "construction with min=" + std::to_string(lo) + " max=" + std::to_string(hi) + " (max < min) did not throw");
+        break;
+      }
+    }
   }
 }
 
